@@ -10,7 +10,7 @@ from .. import facts, tpl
 from ..facts import AnalysisBroken, strip, sub, locstr
 from . import C04
 
-TUS = ['src/uscxml/transform/ChartToPromela.cpp', 'src/uscxml/transform/ChartToC.cpp']
+TUS = ['src/uscxml/transform/ChartToPromela.cpp', 'src/uscxml/transform/ChartToC.cpp', 'src/uscxml/transform/Trie.cpp']
 PHASES = ['writeFSMDequeueEvent', 'writeFSMSelectTransitions', 'writeFSMRememberHistory', 'writeFSMEstablishEntrySet', 'writeFSMExitStates',
           'writeFSMTakeTransitions', 'writeFSMEnterStates']
 STEP_WRITERS = PHASES[1:]
@@ -114,6 +114,7 @@ def run(rep, tier):
     rep.rule('R06.3', 'phase order and loop direction: writeFSM emits dequeue, select, remember history, establish entry set, exit, take, enter in this order; the exit loop counts down from USCXML_NUMBER_STATES, the take and enter loops count up from 0')
     rep.rule('R06.4', 'set updates agree with the C sibling: the multiset of (operation, destination, source) over OR / AND / AND_NOT / COPY / CLEAR is the same in both emitted step functions (accepted differences are listed with reasons)')
     rep.rule('R06.5', 'set-valued completion: the emitted loop that adds the ancestors of a compound\'s deep completion members does not leave at the first member (same clause as C04 R04.9 for the C sibling)')
+    rep.rule('R06.6', 'static event-descriptor resolution: the prefix trie registers every event name and a prefix lookup returns every name below the prefix (rules shared with C12 R12.5 / R12.6)')
     rep.assume('equality of the spin model\'s executions with the interpreter\'s is not decided; executable content, event/string numbering, nested machines and timers are not analysed')
     rep.assume('the emitted C step function is the reference only in the sense of "sibling": C04 checks it against the engines')
     fb = facts.FactBase(TUS)
@@ -247,3 +248,7 @@ def run(rep, tier):
             rep.check(brk is None, 'R06.5', 'writeFSMEstablishEntrySet|deep completion', 'src/uscxml/transform/ChartToPromela.cpp:%s' % (brk or src),
                       'after adding the ancestors of a completion member the emitted loop %s' % ('goes on to the next member' if brk is None else 'BREAKS: only the first state of a multi-state initial attribute gets its ancestors'))
     rep.minimum('R06.5', hits, 1, 'deep-completion ancestor insertions in the Promela step')
+
+    # ---- R06.6
+    from . import C12
+    C12.trie_rules(rep, fb, 'R06.6', 'R06.6')
